@@ -1,6 +1,7 @@
 package main
 
 import (
+	"go/token"
 	"golang.org/x/tools/go/ssa"
 	"regexp"
 	"strings"
@@ -96,6 +97,7 @@ func rulesC07(c *Ctx) {
 		c.NeverAfter(rule, fn, txw, commit, "no metadata write after the metadata commit")
 	}
 	c07FinalizedKept(c, "storage/mkvs/db/badger")
+	c07ResolvedVersion(c, "storage/mkvs/db/badger")
 	if fn := c.needFn(rule, "storage/mkvs/db/badger.(*badgerNodeDB).Finalize"); fn != nil {
 		flush := CallsTo(fn, "versionBatch.Flush", bWB+".Flush", "NewWriteBatchAt")
 		commit := CallsTo(fn, "tx.CommitAt", bTX+".CommitAt", "")
@@ -359,5 +361,40 @@ func c07FinalizedKept(c *Ctx, pk string) {
 			}
 		}
 		c.Check(ok, rule, fname(fn)+":node deletion #"+itoa(i+1)+" only if the multipart version is not finalized", c.P.InstrPos(call), "logged nodes are deleted only under a flag that is false once the multipart version is finalized", "the multipart clean-up can delete the logged nodes although the multipart version is already finalized ("+why+"): a crash between Finalize's metadata commit and its multipart clean-up makes the next start-up delete the finalized version's nodes")
+	}
+}
+
+// c07ResolvedVersion: the multipart clean-up runs both with the in-memory
+// multipart version set (abort, finalize) and, at start-up, with only the
+// persisted one. Whatever it writes or deletes must be addressed with the
+// resolved version, never with the in-memory field alone (zero at start-up).
+func c07ResolvedVersion(c *Ctx, pk string) {
+	const rule = "C07.recover"
+	fn := c.needFn(rule, pk+".(*badgerNodeDB).cleanMultipartLocked")
+	if fn == nil {
+		return
+	}
+	bad := 0
+	n := 0
+	for _, b := range fn.Blocks {
+		for _, in := range b.Instrs {
+			u, ok := in.(*ssa.UnOp)
+			if !ok || u.Op != token.MUL || vstr(u) != "*param:d.multipartVersion" || u.Referrers() == nil {
+				continue
+			}
+			n++
+			for _, r := range *u.Referrers() {
+				switch r.(type) {
+				case *ssa.BinOp, *ssa.Phi, *ssa.If:
+					// comparison / resolution
+				default:
+					bad++
+					c.Fail(rule, fname(fn)+":in-memory multipart version used directly", c.P.InstrPos(r.(ssa.Instruction)), "the in-memory multipart version (zero when the clean-up runs at start-up) is used for a timestamp or key instead of the resolved version: the start-up clean-up of an interrupted restore would address the wrong records")
+				}
+			}
+		}
+	}
+	if bad == 0 {
+		c.Check(n > 0, rule, fname(fn)+":only the resolved multipart version is used", c.P.Pos(fn.Pos()), itoa(n)+" load(s) of the in-memory field, used only to resolve the version", "no use of the multipart version found")
 	}
 }
